@@ -39,6 +39,9 @@ pub enum Mutation {
     Insert(u16, Blob),
     /// duplicate frame `sel`
     Dup(u16),
+    /// replace the payload of frame `sel` by a well-formed zstd frame header that declares this
+    /// decompressed size (single segment, one empty last block) and set the compressed flag
+    ZstdHeader(u16, u64),
 }
 
 #[derive(Clone, Debug, Serialize, Deserialize)]
@@ -95,6 +98,7 @@ pub fn strategy() -> BoxedStrategy<Case> {
                 3 => (any::<u16>(), 1u8..=255).prop_map(|(s, v)| Mutation::Corrupt(s, v)),
                 2 => (any::<u16>(), small_bytes(9)).prop_map(|(s, b)| Mutation::Insert(s, b)),
                 1 => any::<u16>().prop_map(Mutation::Dup),
+                1 => (any::<u16>(), prop_oneof![Just(1u64 << 62), Just(u64::MAX - 2), Just(1u64 << 40), Just(1u64 << 33), Just(5u64), Just(0u64), any::<u64>()]).prop_map(|(s, d)| Mutation::ZstdHeader(s, d)),
             ];
             let trailers = if response {
                 prop_oneof![
@@ -163,6 +167,14 @@ pub fn build_bytes(c: &Case) -> Vec<u8> {
             Mutation::LenAbs(s, d) if !frames.is_empty() => {
                 let i = gen::pick(*s, frames.len());
                 frames[i][1..5].copy_from_slice(&d.to_be_bytes());
+            }
+            Mutation::ZstdHeader(s, size) if !frames.is_empty() => {
+                let i = gen::pick(*s, frames.len());
+                // magic, descriptor (FCS 8 bytes, single segment), content size, last raw block of size 0
+                let mut z = vec![0x28, 0xb5, 0x2f, 0xfd, 0xe0];
+                z.extend_from_slice(&size.to_le_bytes());
+                z.extend_from_slice(&[0x01, 0x00, 0x00]);
+                frames[i] = wire::frame(1, &z);
             }
             Mutation::Dup(s) if !frames.is_empty() => {
                 let i = gen::pick(*s, frames.len());
@@ -361,6 +373,7 @@ pub fn run(c: &Case, o: &mut Outcome) -> Result<(), Failure> {
         End,
         Stuck,
     }
+    crate::infra::alloc::arm();
     let evs: Vec<E> = if c.prost {
         let d = ProstCodec::<Msg, Msg>::raw_decoder(BufferSettings::new(c.buffer_size, 1024));
         let mut st = if c.response {
@@ -395,6 +408,10 @@ pub fn run(c: &Case, o: &mut Outcome) -> Result<(), Failure> {
             .collect()
     };
 
+    let max_req = crate::infra::alloc::disarm();
+    // ---- hostile input must not make the receiver reserve absurd amounts of memory (the whole input is
+    // far below 1 MiB here; zstd itself may legitimately allocate a window of up to 128 MiB)
+    ensure!(max_req < (1usize << 30), "C07/absurd-allocation", "a single allocation request of {max_req} bytes was made while decoding {} input bytes", delivered.len());
     // ---- every poll completes
     ensure!(!evs.iter().any(|e| matches!(e, E::Stuck)), "C07/poll-does-not-complete", "stream did not complete within the poll budget; events so far: {}", evs.len());
     let pae = probe.polls_after_end.load(std::sync::atomic::Ordering::Relaxed);
@@ -499,7 +516,7 @@ impl Prop for C07 {
         run(c, o)
     }
     fn rule() -> &'static str {
-        "proptest: valid streams from the independent encoder (0-5 frames, identity or really compressed) mutated by flag->2..255/0/1, length +-delta / absolute (4 MiB+-1, 2^31, 2^32-1), truncation at any byte, byte corruption, inserted garbage, duplicated frames - or raw random bytes; any chunking (0,1,2-5,<=100,<=9000) and body Pending pattern; decoder in {raw, prost}; direction in {request, response}; trailers in {none, OK, error status, malformed grpc-status, no grpc-status}; body error injected before any chunk. After the first Err/None the stream is polled 6 more times. Oracle: no panic, poll budget respected, body not re-polled after its end, i-th message equals i-th frame of the independent reference parse, at most one Err ever and only None after it, None sticky, definite malformations (bad flag, flag 1 without encoding, over-limit length, undecodable protobuf, truncation with no trailers) must produce an error. Non-trivial: reference parse stops early (malformed) or a body error is injected; distinct = distinct serialised case."
+        "proptest: valid streams from the independent encoder (0-5 frames, identity or really compressed) mutated by well-formed zstd frame headers declaring absurd content sizes, flag->2..255/0/1, length +-delta / absolute (4 MiB+-1, 2^31, 2^32-1), truncation at any byte, byte corruption, inserted garbage, duplicated frames - or raw random bytes; any chunking (0,1,2-5,<=100,<=9000) and body Pending pattern; decoder in {raw, prost}; direction in {request, response}; trailers in {none, OK, error status, malformed grpc-status, no grpc-status}; body error injected before any chunk. After the first Err/None the stream is polled 6 more times. Oracle: no panic, poll budget respected, body not re-polled after its end, i-th message equals i-th frame of the independent reference parse, at most one Err ever and only None after it, None sticky, definite malformations (bad flag, flag 1 without encoding, over-limit length, undecodable protobuf, truncation with no trailers) must produce an error. Non-trivial: reference parse stops early (malformed) or a body error is injected; distinct = distinct serialised case."
     }
     fn assumptions() -> Vec<String> {
         vec![
